@@ -49,6 +49,30 @@ def canary(row, rng):
     return None
 
 
+def default_literal(t, support):
+    """an IDL literal for a defaulted parameter of type t (base types, enums and typedefs of them), or None"""
+    defs = {d["name"]: d for d in support}
+    for _ in range(8):
+        k = t["k"]
+        if k == "bool":
+            return "true"
+        if k in ("i8", "i16", "i32", "i64"):
+            return "7"
+        if k == "double":
+            return "1.5"
+        if k == "string":
+            return '"x"'
+        if k != "ref" or t["n"] not in defs:
+            return None
+        d = defs[t["n"]]
+        if d["kind"] == "enum" and d.get("items"):
+            return str(d["items"][0]["value"])
+        if d["kind"] != "typedef":
+            return None
+        t = d["target"]
+    return None
+
+
 def build_program(types, support):
     local = [d for d in support if d.get("pkg", "svc") == "svc"]
     local_names = {d["name"] for d in local}
@@ -64,10 +88,14 @@ def build_program(types, support):
             T = tx(t, local_names)
             # every fifth function renames a parameter and an exception for Go (go.name): the description follows the generated fields
             ren = (i + j) % 5 == 2
-            lines.append("  %s %s(1: %s a%s, 2: required %s b) throws (1: base.Oops err, 2: LocalErr err2%s)"
-                         % (T, fn, T, ' (go.name = "Alpha")' if ren else "", T, ' (go.name = "SecondErr")' if ren else ""))
+            # a parameter with a default value is still an optional field of the generated Args struct, and described so
+            lit = default_literal(t, support)
+            third = (", 3: %s c = %s" % (T, lit)) if lit else ""
+            lines.append("  %s %s(1: %s a%s, 2: required %s b%s) throws (1: base.Oops err, 2: LocalErr err2%s)"
+                         % (T, fn, T, ' (go.name = "Alpha")' if ren else "", T, third, ' (go.name = "SecondErr")' if ren else ""))
             funcs.append({"svc": name, "gosvc": name, "fn": fn, "gofn": "F%d" % (i + j), "pkg": "svc", "items": [
-                {"role": "arg", "name": "Alpha" if ren else "A", "t": t, "req": False}, {"role": "arg", "name": "B", "t": t, "req": True},
+                {"role": "arg", "name": "Alpha" if ren else "A", "t": t, "req": False}, {"role": "arg", "name": "B", "t": t, "req": True}]
+                + ([{"role": "arg", "name": "C", "t": t, "req": False}] if lit else []) + [
                 {"role": "exc", "name": "Err", "t": {"k": "ref", "n": "Oops"}, "req": False},
                 {"role": "exc", "name": "SecondErr" if ren else "Err2", "t": {"k": "ref", "n": "LocalErr"}, "req": False},
                 {"role": "ret", "name": "", "t": t, "req": True}]})
